@@ -417,6 +417,11 @@ def evaluate_ifdefs(text):
 
 def get_canonical_path(fpath: Path) -> str:
     if not isinstance(fpath, Path) or fpath.kind == Path.FILE:
-        return Path(os.path.realpath(fpath))
+        try:
+            return Path(os.path.realpath(fpath))
+        except ValueError:
+            # Not a path that the OS accepts (e.g., it contains a NUL character);
+            # opening it will report the error.
+            return Path(fpath)
     else:
         return fpath
